@@ -100,6 +100,7 @@ impl Known {
 
 static EXCLUDED: AtomicU64 = AtomicU64::new(0);
 static VARIANTS: AtomicU64 = AtomicU64::new(0);
+static REUSED: AtomicU64 = AtomicU64::new(0);
 
 fn excluded() {
     EXCLUDED.fetch_add(1, Ordering::Relaxed);
@@ -574,10 +575,62 @@ fn table_fn(t: Table) -> impl FnMut(u16) -> Option<u32> {
     }
 }
 
+// Objects the parsers read into: a fresh one, or one that already holds something else (a previously
+// read snapshot / a snapshot produced by applying a delta / a previously read delta). Which one is a
+// pure function of the input, so replays are exact. What the object held before must not matter.
+thread_local! {
+    static DIRT: (Snap, Snap, Delta) = make_dirt();
+}
+
+fn make_dirt() -> (Snap, Snap, Delta) {
+    let mut m = Items::new();
+    m.insert(mk_key(0, 0x4000), UUID_POOL[0].to_vec());
+    m.insert(mk_key(0, 0x4001), UUID_POOL[1].to_vec());
+    m.insert(mk_key(0x4000, 7), vec![1, 2]);
+    m.insert(mk_key(5, 1), vec![3, 4, 5]);
+    m.insert(mk_key(0x8001, 9), vec![6]);
+    let mut a = Snap::default();
+    let _ = a.read_from_ints(&mut Sink::default(), &model_serialize(&m));
+    // delta on the empty snapshot: adds (6, 2) = [8, 9] (explicit size) and (1, 3) = [7]
+    let mut d = Delta::new();
+    let _ = d.read_from_ints(&mut Sink::default(), table_fn(Table::None), &mut IntUnpacker::new(&[0, 2, 0, 6, 2, 2, 8, 9, 1, 3, 1, 7]));
+    let mut b = Snap::default();
+    let _ = b.read_with_delta(&mut Sink::default(), &a, &d);
+    (a, b, d)
+}
+
+fn input_sel(words: impl Iterator<Item = i32>, len: usize) -> usize {
+    let mut h = len as u32;
+    for w in words {
+        h = h.wrapping_mul(31).wrapping_add(w as u32);
+    }
+    ((h >> 3) % 3) as usize
+}
+
+fn start_snap(sel: usize) -> Snap {
+    if sel != 0 {
+        REUSED.fetch_add(1, Ordering::Relaxed);
+    }
+    match sel {
+        0 => Snap::default(),
+        1 => DIRT.with(|d| d.0.clone()),
+        _ => DIRT.with(|d| d.1.clone()),
+    }
+}
+
+fn start_delta(sel: usize) -> Delta {
+    if sel != 0 {
+        REUSED.fetch_add(1, Ordering::Relaxed);
+        DIRT.with(|d| d.2.clone())
+    } else {
+        Delta::new()
+    }
+}
+
 pub fn lib_snap_from_ints(ints: &[i32]) -> Result<(Snap, Result<(), Error>, Sink), String> {
     let mut w = Sink::default();
+    let mut s = start_snap(input_sel(ints.iter().cloned(), ints.len()));
     let (s, r) = measured("Snap::read_from_ints", ints.len() * 4, || {
-        let mut s = Snap::default();
         let r = s.read_from_ints(&mut w, ints);
         (s, r)
     })?;
@@ -586,8 +639,8 @@ pub fn lib_snap_from_ints(ints: &[i32]) -> Result<(Snap, Result<(), Error>, Sink
 
 pub fn lib_snap_from_bytes(bytes: &[u8]) -> Result<(Snap, Result<(), Error>, Sink), String> {
     let mut w = Sink::default();
+    let mut s = start_snap(input_sel(bytes.iter().map(|&b| b as i32), bytes.len()));
     let (s, r) = measured("Snap::read", bytes.len(), || {
-        let mut s = Snap::default();
         let mut buf = Vec::new();
         let r = s.read(&mut w, &mut buf, bytes);
         (s, r)
@@ -600,8 +653,8 @@ pub fn lib_delta_from_ints(
     ints: &[i32],
 ) -> Result<(Delta, Result<(), Error>, Sink), String> {
     let mut w = Sink::default();
+    let mut d = start_delta(input_sel(ints.iter().cloned(), ints.len()) & 1);
     let (d, r) = measured("Delta::read_from_ints", ints.len() * 4, || {
-        let mut d = Delta::new();
         let r = d.read_from_ints(&mut w, table_fn(table), &mut IntUnpacker::new(ints));
         (d, r)
     })?;
@@ -613,8 +666,8 @@ pub fn lib_delta_from_bytes(
     bytes: &[u8],
 ) -> Result<(Delta, Result<(), Error>, Sink), String> {
     let mut w = Sink::default();
+    let mut d = start_delta(input_sel(bytes.iter().map(|&b| b as i32), bytes.len()) & 1);
     let (d, r) = measured("Delta::read", bytes.len(), || {
-        let mut d = Delta::new();
         let r = d.read(&mut w, table_fn(table), &mut Unpacker::new(bytes));
         (d, r)
     })?;
@@ -628,8 +681,8 @@ fn lib_apply(
     delta_words: usize,
 ) -> Result<(Snap, Result<(), Error>, Sink), String> {
     let mut w = Sink::default();
+    let mut s = start_snap((from_words + 2 * delta_words) % 3);
     let (s, r) = measured("Snap::read_with_delta", (from_words + delta_words) * 4, || {
-        let mut s = Snap::default();
         let r = s.read_with_delta(&mut w, from, delta);
         (s, r)
     })?;
@@ -2413,4 +2466,5 @@ pub fn run(ctx: &Ctx) {
     let missing: Vec<&str> = ERR_NAMES.iter().copied().filter(|n| !distinct.contains(n)).collect();
     ctx.extra("error_variants_missing", json!(missing));
     ctx.extra("library_inputs_judged", json!(VARIANTS.load(Ordering::Relaxed)));
+    ctx.extra("parses_into_an_object_that_already_held_something_else", json!(REUSED.load(Ordering::Relaxed)));
 }
